@@ -132,8 +132,12 @@ pub fn check_exp_digits(c: &ExpArg) -> Verdict {
     ensure!(v, dec_of(&r).signum() > 0, "C20/exp-positive", "exp({}) = {}", c.d.dec().show(), dec_of(&r).show());
     // "deliver the configured number of significant digits": all P digits must be digits of e^x
     let pd = cfg.precision;
-    if let (bdoracle::expo::ExpVerdict::Outside { approx_units }, _) = bdoracle::expo::judge(&c.d.dec(), &dec_of(&r), pd, 1) {
-        ensure!(v, false, "C20/exp-inaccurate", "exp({}) is {:.2} units of digit {} away from e^x", c.d.dec().show(), approx_units, pd);
+    match bdoracle::expo::judge(&c.d.dec(), &dec_of(&r), pd, 1).0 {
+        bdoracle::expo::ExpVerdict::Within => {}
+        bdoracle::expo::ExpVerdict::Undecided => return Verdict::inconclusive("enclosure straddles the tolerance"),
+        bdoracle::expo::ExpVerdict::Outside { approx_units } => {
+            ensure!(v, false, "C20/exp-inaccurate", "exp({}) is {:.2} units of digit {} away from e^x", c.d.dec().show(), approx_units, pd);
+        }
     }
     v
 }
